@@ -24,6 +24,14 @@ theorem resolve_irrelevant (c : Cand) (l1 l2 : List Cand) (args : List Ty) (hc :
   unfold resolve
   exact resolveLoop_skip _ _ c hc l1 l2 [] [] []
 
+/-- **independent of the names of generic parameters**: renaming the generic parameters of the candidates by an
+injective map changes nothing, for call sites with fully known argument types (no generic parameter, no function
+name among the argument types) -/
+theorem resolve_alpha (σ : String → String) (hσ : Function.Injective σ) (cs : List Cand) (args : List Ty)
+    (hg : groundList args = true) : resolve (cs.map (Cand.rename σ)) args = resolve cs args := by
+  unfold resolve
+  exact resolveLoop_rename σ hσ _ args hg cs [] [] []
+
 /-- the winner is a visible candidate that matches the arguments -/
 theorem resolve_sound (cs : List Cand) (args : List Ty) (i : Nat) (h : resolve cs args = .ok i) :
     ∃ c ∈ cs, c.id = i ∧ c.matches args = true := by
